@@ -62,6 +62,58 @@ var alphabet = []string{
 	" ", "#", "\"u",
 }
 
+
+// lexTails: every sub-automaton of the lexer (string, regex, block comment, line comment,
+// description, number, identifier, stray character) crossed with every way its literal can
+// continue and end: closed, cut by a newline, cut by the end of input (no final newline),
+// with valid escapes, an invalid escape, a lone backslash at the end. These are the inputs on
+// which a lexer loop can fail to stop or report a position past the end.
+func lexTails() []string {
+	var out []string
+	bodies := []string{"", "x", "é b"}
+	for _, q := range []string{"\"", "/"} { // string and regex share the shape open, body, escapes, close
+		escs := []string{"", "\\\\", "\\" + q, "\\\n", "\\q", "\\é", "\\"}
+		if q == "/" {
+			escs = []string{"", "//", "\\/", "\\q", "\\"}
+		}
+		for _, b1 := range bodies {
+			if q == "/" && b1 == "" {
+				continue // "//" is a comment
+			}
+			for _, e := range escs {
+				for _, b2 := range []string{"", "y"} {
+					for _, end := range []string{q, "", "\n", q + "\n", q + q} {
+						out = append(out, q+b1+e+b2+end)
+					}
+				}
+			}
+		}
+	}
+	for _, b := range []string{"", "c", "*", "/", "c\nd", "**", "*/x"} {
+		for _, end := range []string{"*/", "", "*", "\n", "*/\n"} {
+			out = append(out, "/*"+b+end)
+		}
+	}
+	for _, lead := range []string{"//", "|", "| ", "|\t"} {
+		for _, b := range []string{"", "c", "é", "c  ", "\"", "/*"} {
+			for _, end := range []string{"", "\n", "\r\n"} {
+				out = append(out, lead+b+end)
+			}
+		}
+	}
+	for _, n := range []string{"1", "1.", "1.2", "1.2.", "1..", "1.2.3", ".5", "1e5", "٣", "1_0", "-1"} {
+		for _, end := range []string{"", "\n", " ", "a"} {
+			out = append(out, n+end)
+		}
+	}
+	for _, c := range []string{"#", "@", "-", "$", "\\", "'", "\x00", "\xff", "\u2028"} {
+		for _, end := range []string{"", "\n", "a"} {
+			out = append(out, c+end)
+		}
+	}
+	return out
+}
+
 // all sequences over the alphabet of length <= n, rendered with sep between tokens
 func sequences(n int, sep string) []string {
 	out := []string{""}
